@@ -357,12 +357,31 @@ public:
         m_deferred_writes.push_back(FileWrite { std::move(file), destination_path, std::move(permission_callback) });
     }
 
+    // The source of a rename may only be removed once its content has been written to the new name.
+    void deferred_remove(const std::string& path)
+    {
+        m_deferred_removals.push_back(path);
+    }
+
+    bool has_deferred_write_to(const std::string& path) const
+    {
+        return std::any_of(m_deferred_writes.begin(), m_deferred_writes.end(), [&path](const FileWrite& write) {
+            return write.destination_path == path;
+        });
+    }
+
     void finalize()
     {
         for (auto& deferred_write : m_deferred_writes) {
             File file(deferred_write.destination_path, std::ios_base::out | std::ios::trunc);
             deferred_write.source.write_entire_contents_to(file);
             deferred_write.permission_callback(deferred_write.destination_path);
+        }
+
+        // A name which has also been written to (for example when two files swap names) is not removed.
+        for (const auto& path : m_deferred_removals) {
+            if (!has_deferred_write_to(path))
+                remove_file_and_empty_parent_folders(path);
         }
     }
 
@@ -374,6 +393,7 @@ private:
     };
 
     std::vector<FileWrite> m_deferred_writes;
+    std::vector<std::string> m_deferred_removals;
 };
 
 struct PermissionResult {
@@ -646,8 +666,12 @@ int process_patch(const Options& options)
             }
 
             if (result.failed_hunks == 0) {
-                if (write_to_file && patch.operation == Operation::Rename)
-                    remove_file_and_empty_parent_folders(file_to_patch);
+                if (write_to_file && patch.operation == Operation::Rename) {
+                    if (deferred_writer.has_deferred_write_to(output_file))
+                        deferred_writer.deferred_remove(file_to_patch);
+                    else
+                        remove_file_and_empty_parent_folders(file_to_patch);
+                }
             }
         }
     }
